@@ -13,42 +13,46 @@
 (*                 in flight may show either its old or its new state"); a torn / unknown value is logged as  *)
 (*                 -1 and is never admissible.  The recovered map becomes the new baseline, so everything     *)
 (*                 acknowledged after a recovery is demanded again at the next one.                           *)
-(* Weaker-reading choices: expiry is part of a key's state (the clock is frozen in these runs, nothing         *)
-(* expires); compaction, clear-on-empty and other calls that do not change the map demand nothing.           *)
+(*   Op(tick)      the wall clock jumps past the first deadline (KvOps: now = Late).  Expiry is part of a    *)
+(*                 key's state; a key whose expiry has passed at the reopen must show as ABSENT, every other  *)
+(*                 key with its acknowledged expiry (recovered expiries are logged as absolute instants).      *)
+(* Weaker-reading choices: compaction, clear-on-empty and other calls that do not change the map demand nothing;*)
+(* expireAt / persist on a key whose expiry has passed are no-ops (as in C12's reference map).                *)
 EXTENDS TraceBase, KvOps
 
 CONSTANT NK                      \* size of the key universe of the driver (ids 1..NK)
-VARIABLES m, pend, st
-vars == <<l, m, pend, st>>
+VARIABLES m, pend, pnow, now, st
+vars == <<l, m, pend, pnow, now, st>>
 
 Keys == 1..NK
 Empty == [k \in Keys |-> NoKey]
 OpOf(e) == [op |-> e.op, k |-> e.k, v |-> e.v, e |-> e.ex, ks |-> e.ks, vs |-> e.vs]
 
-Init == l = 1 /\ m = Empty /\ pend = Nop /\ st = "idle"
+Init == l = 1 /\ m = Empty /\ pend = Nop /\ pnow = 0 /\ now = 0 /\ st = "idle"
 
-EvBegin == IsEv("Begin") /\ Ev.store = "kv" /\ m' = Empty /\ pend' = Nop /\ st' = "up"
-EvReset == IsEv("Reset") /\ m' = Empty /\ pend' = Nop /\ st' = "idle"
-EvEnd   == IsEv("End") /\ UNCHANGED <<m, pend, st>>
+EvBegin == IsEv("Begin") /\ Ev.store = "kv" /\ m' = Empty /\ pend' = Nop /\ pnow' = 0 /\ now' = 0 /\ st' = "up"
+EvReset == IsEv("Reset") /\ m' = Empty /\ pend' = Nop /\ pnow' = 0 /\ now' = 0 /\ st' = "idle"
+EvEnd   == IsEv("End") /\ UNCHANGED <<m, pend, pnow, now, st>>
 
 EvOp == /\ IsEv("Op") /\ st = "up"
-        /\ m' = Eff(OpOf(Ev), m)
-        /\ UNCHANGED <<pend, st>>
+        /\ m' = EffT(OpOf(Ev), m, now)
+        /\ now' = (IF Ev.op = "tick" THEN Late ELSE now)
+        /\ UNCHANGED <<pend, pnow, st>>
 
 EvCrash == /\ IsEv("Crash")
-           /\ \/ st = "up" /\ pend' = OpOf(Ev)
-              \/ st = "down" /\ Ev.op = "nop" /\ UNCHANGED pend
-           /\ st' = "down" /\ UNCHANGED m
+           /\ \/ st = "up" /\ pend' = OpOf(Ev) /\ pnow' = now
+              \/ st = "down" /\ Ev.op = "nop" /\ UNCHANGED <<pend, pnow>>
+           /\ st' = "down" /\ UNCHANGED <<m, now>>
 
-EvClose == IsEv("Close") /\ st = "up" /\ st' = "down" /\ pend' = Nop /\ UNCHANGED m
+EvClose == IsEv("Close") /\ st = "up" /\ st' = "down" /\ pend' = Nop /\ UNCHANGED <<m, pnow, now>>
 
 EvRecovered ==
     /\ IsEv("Recovered") /\ st = "down"
     /\ Ev.ok /\ Ev.extra = 0 /\ Len(Ev.vals) = NK /\ Len(Ev.exps) = NK
     /\ LET rec == [k \in Keys |-> [val |-> Ev.vals[k], exp |-> Ev.exps[k]]] IN
-       /\ \A k \in Keys : rec[k] \in Admissible(m, pend, k)
+       /\ \A k \in Keys : rec[k] \in AdmissibleT(m, pend, k, pnow, now)
        /\ m' = rec
-    /\ pend' = Nop /\ st' = "up"
+    /\ pend' = Nop /\ st' = "up" /\ UNCHANGED <<pnow, now>>
 
 Next == EvBegin \/ EvReset \/ EvEnd \/ EvOp \/ EvCrash \/ EvClose \/ EvRecovered
 Spec == Init /\ [][Next]_vars
